@@ -90,6 +90,8 @@ pub fn scaled(mut params: GenParams) -> GenParams {
     params.max_key = 48;
     params.limits = if params.pressure { vec![1000, 100_000, 1 << 33, 1 << 40] } else { vec![1 << 20, 1 << 40] };
     params.counters = vec![16, 64, 1000];
+    params.fill = 6;
+    if params.pressure { params.limits.push(150); params.limits.push(300); }
     params
 }
 
@@ -117,7 +119,7 @@ pub fn profile(property: &str) -> GenParams {
             params.mix = [30, 10, 25, 15, 2, 3, 8, 2, 25, 3];
         }
         "C05" => {
-            params.limits = vec![100, 1000];
+            params.limits = vec![100, 1000, 1000, i64::MAX];
             params.max_key = 4;
             params.mix = [35, 20, 15, 8, 1, 3, 6, 2, 35, 3];
         }
@@ -154,6 +156,15 @@ pub fn profile(property: &str) -> GenParams {
             params.ticks_us = vec![500, 500, 500, 500, 500, 500, 500, 3_600_000_000];
             params.mix = [25, 30, 4, 20, 3, 2, 12, 1, 3, 30];
         }
+        "C10-mass-expiry" => {
+            params.limits = vec![1 << 20];
+            params.pressure = false;
+            params.shards = vec![2, 4];
+            params.stall = false;
+            params.max_ops = 40;
+            params.fill = 40;
+            params.mix = [6, 6, 4, 6, 1, 1, 25, 8, 0, 2];
+        }
         "C10" => {
             params.limits = vec![200, 1000, 4000];
             params.mix = [30, 25, 10, 8, 1, 3, 25, 8, 5, 3];
@@ -165,7 +176,7 @@ pub fn profile(property: &str) -> GenParams {
             params.mix = [30, 12, 25, 10, 1, 2, 4, 1, 45, 1];
         }
         "C16" => {
-            params.limits = vec![100, 1000, 4000];
+            params.limits = vec![100, 1000, 4000, i64::MAX];
             params.mix = [30, 20, 10, 25, 3, 6, 10, 2, 6, 3];
         }
         "C17" => {
@@ -225,6 +236,8 @@ pub fn seq_campaigns(property: &str) -> Vec<SeqCampaign> {
                 rule: "as seq-main, but put_or_update is also generated for keys that are past their time-to-live and not yet swept, or deleted with the delete still queued (the loss of such an upsert, known finding F7 of C08, is noted and does not end the case): an upsert that gives such a key a new time-to-live makes it readable again until the new deadline, and the sweep of the old deadline must not remove it; non-trivial = >= 2 in-place upserts and a sweep that removed a key" }],
         "C10" => vec![
             main("seq-main", 1500, 30_000, nt_c10, RULE_C10),
+            SeqCampaign { name: "seq-mass-expiry", params: profile("C10-mass-expiry"), policy: Policy::default(), cases_quick: 300, cases_thorough: 4000, nt: |s| s.swept_keys >= 33,
+                rule: "histories that fill the cache with 10-70 light TTL keys per step (up to ~130 keys, 2 or 4 expiry shards), then advance the clock and rotate through the shards: dozens of keys expire in one sweep; same oracles as seq-main; non-trivial = at least 33 keys were removed by sweeps" },
             SeqCampaign { name: "seq-reput-expired", params: profile("C10"), policy: Policy { allow_put_on_expired_unswept: true, ..Policy::default() }, cases_quick: 1500, cases_thorough: 20_000, nt: |s| s.swept_keys >= 1 && s.puts_on_used_key >= 1,
                 rule: "as seq-main, but puts of keys that are past their time-to-live and not yet swept are generated too (their refusal, known finding F6 of C07, is noted and does not end the case): a re-put that is accepted must survive the sweep of the old incarnation; non-trivial = a sweep removed a key and a previously written key was put again" },
             SeqCampaign { name: "seq-upsert-expired", params: profile("C09"), policy: Policy { allow_upsert_on_dead_entry: true, ..Policy::default() }, cases_quick: 2000, cases_thorough: 30_000, nt: |s| s.upserts_in_place >= 2 && s.swept_keys >= 1,
